@@ -351,7 +351,7 @@ func c20r1(c *Check) {
 		checkRouteOptsOrder(c, fn, tok)
 	}
 	// addBlack <method> <pattern> and the TOML blacklist: method name → matcher option
-	checkStringSwitchMatcher(c, c.P.Func("imperatives", "", "readAddBlack"), "imperatives.readAddBlack")
+	checkStringSwitchMatcher(c, c.P.Func("imperatives", "", "readAddBlack"), "imperatives.readAddBlack", false)
 	// modRoute / modDest: option token → opts[name] → matcher option
 	for _, fnn := range []string{"readModDest", "readModRoute"} {
 		fn := c.P.Func("imperatives", "", fnn)
@@ -375,8 +375,8 @@ func c20r1(c *Check) {
 			anchorFail("%s: no opts[...] assignments", fnn)
 		}
 	}
-	checkStringSwitchMatcher(c, c.P.Func("route", "*baseRoute", "update"), "route.baseRoute.update (modRoute)")
-	checkStringSwitchMatcher(c, c.P.Func("destination", "*Destination", "Update"), "destination.Destination.Update (modDest)")
+	checkStringSwitchMatcher(c, c.P.Func("route", "*baseRoute", "update"), "route.baseRoute.update (modRoute)", true)
+	checkStringSwitchMatcher(c, c.P.Func("destination", "*Destination", "Update"), "destination.Destination.Update (modDest)", true)
 	// carbon routes use readRouteOpts too
 	checkRouteOptsOrder(c, c.P.Func("imperatives", "", "readAddRoute"), tok)
 	checkRouteOptsOrder(c, c.P.Func("imperatives", "", "readAddRouteConsistentHashing"), tok)
@@ -385,12 +385,25 @@ func c20r1(c *Check) {
 
 // checkStringSwitchMatcher: in fn, the value assigned under `case "<opt>"` of a string switch reaches
 // matcher.New's parameter for <opt> (and nothing else does, apart from the current value when updating).
-func checkStringSwitchMatcher(c *Check, fn *ssa.Function, label string) {
+func checkStringSwitchMatcher(c *Check, fn *ssa.Function, label string, keepCurrent bool) {
 	w := wiringOfCall(c, fn, modPath+"/matcher.New")
 	for i, opt := range matcherOrder {
 		names, _ := tokenSources(w.srcs[w.params[i]])
 		okS := len(names) == 1 && names[0] == "str:"+opt
 		c.Judge(okS, label+" \""+opt+"\" → matcher.New("+opt+")", c.At(w.call), "the value given for "+opt+" becomes the "+opt+" option of the new filter", fmt.Sprintf("filter option %s is fed from the cases %v: options are swapped or ignored", opt, names))
+		if keepCurrent {
+			// an option that is not given keeps its current value: the only other source is the equally named field of the filter in force
+			want := strings.ToUpper(opt[:1]) + opt[1:]
+			fields, _ := fieldSources(w.srcs[w.params[i]])
+			var other []string
+			for _, s := range w.srcs[w.params[i]] {
+				if s.Kind != "token" && s.Kind != "field" {
+					other = append(other, s.String())
+				}
+			}
+			okF := len(fields) == 1 && strings.TrimSuffix(fields[0], "@init") == want && len(other) == 0
+			c.Judge(okF, label+" "+opt+" not given → current "+want, c.At(w.call), "an option that is not mentioned keeps the value of field "+want+" of the current filter", fmt.Sprintf("when %s is not given the new filter takes it from fields %v / %v instead of the current %s: updating one option silently changes another", opt, fields, other, want))
+		}
 	}
 }
 
@@ -479,7 +492,7 @@ func c20r2(c *Check) {
 	}
 	checkSubWins(c, ia, "cfg.InitAggregation")
 	// blacklist = ['<method> <pattern>', ...]
-	checkStringSwitchMatcher(c, c.P.Func("cfg", "", "InitBlacklist"), "cfg.InitBlacklist")
+	checkStringSwitchMatcher(c, c.P.Func("cfg", "", "InitBlacklist"), "cfg.InitBlacklist", false)
 	if rows, err := readMarkdownTable(docsFile(c), "Blacklist", "type"); err == nil {
 		sort.Strings(rows)
 		want := append([]string(nil), matcherOrder...)
